@@ -8,8 +8,11 @@
      mode (it filters the removed handles out of the stored lists and keeps the lengths only by C02's closure property,
      which is not proved here) and set_face / set_cell (not tet operations); those steps are carried by the lock-step
      correspondence + the impl-side valence scan.
-   * "every cell has four distinct vertices" is REFUTED for the faithful model (and on the library): the
-     topology-checked add_cell accepts two "pillows" (C15_four_distinct_vertices_refuted).
+   * four distinct vertices: proved for every cell accepted by the topology-checked add_cell(halffaces)
+     (C15_checked_add_cell_four_distinct_vertices; the former counterexample - two "pillows" - is rejected since the fix
+     "checked tet add_cell must reject four triangles that are not a tetrahedron", Example C15_two_pillows_rejected); as an
+     invariant of ALL additions it stays refuted, because the UNCHECKED add_cell stores whatever four triangles it is
+     given (C15_four_distinct_vertices_unchecked_refuted).
    * collapse_edge: shape in deferred and in immediate fast mode, returned handle in deferred mode; the characterisation
      of the resulting cell set (and the slow immediate mode) is carried by the correspondence and the brute-force oracle
      (harness/run_tet.cc). *)
@@ -33,13 +36,16 @@ Theorem C15_tet_shape_is_three_and_four : forall s : mesh, tet_shape s ->
 Proof. exact (kshape_live 3 4). Qed.
 Print Assumptions C15_tet_shape_is_three_and_four.
 
-(* full statement (refuted):  forall ops, tet_shape_full (tet_run ops)  -- valences AND four distinct vertices per cell *)
-Theorem C15_four_distinct_vertices_refuted :
-  exists ops, inside_along empty_mesh ops /\
-              (exists c, tet_step (tet_run (removelast ops)) (last ops (TK AddVertex)) = TOk (tet_run ops) (Some c)) /\
-              ~ tet_shape_full (tet_run ops).
-Proof. exact tet_shape_full_refuted. Qed.
-Print Assumptions C15_four_distinct_vertices_refuted.
+Theorem C15_checked_add_cell_four_distinct_vertices : forall s hfs s' c, tet_add_cell s hfs true = (s', Some c) ->
+  c = nc s /\ cell_at s' c = hfs /\ length hfs = 4 /\ length (cell_vertex_set s' c) = 4.
+Proof. exact tet_add_cell_checked_four_vertices. Qed.
+Print Assumptions C15_checked_add_cell_four_distinct_vertices.
+
+(* full statement (refuted for unchecked additions):  forall ops, tet_shape_full (tet_run ops) *)
+Theorem C15_four_distinct_vertices_unchecked_refuted :
+  exists ops, inside_along empty_mesh ops /\ ~ tet_shape_full (tet_run ops).
+Proof. exact tet_shape_full_unchecked_refuted. Qed.
+Print Assumptions C15_four_distinct_vertices_unchecked_refuted.
 
 (* ---- get_cell_vertices: the given (or first) halfface's vertices in cyclic order from the requested start, then the apex *)
 Theorem C15_get_cell_vertices_of_halfface : forall s c hfs V, tet_wf s c hfs V -> forall hf, In hf hfs ->
@@ -143,6 +149,11 @@ Example C15_inside_history_with_removals :
               TK (EnableDeferred false); TAddCellV [0; 1; 2; 3] true; TAddCellV [0; 1; 3; 4] true; TK (DelFace 0); TCollapse 2] in
   inside_along empty_mesh ops /\ nc (tet_run ops) = 1 /\ nf (tet_run ops) = 4.
 Proof. exact inside_history_with_removals. Qed.
+
+Example C15_two_pillows_rejected :
+  tet_step (tet_run two_pillows) (TK (AddCell [0; 3; 4; 7] true)) = TOk (tet_run two_pillows) None /\
+  cell_check (tet_run two_pillows) [0; 3; 4; 7] = true.
+Proof. exact two_pillows_rejected. Qed.
 
 Example C15_a_tetrahedron_is_well_formed : tet_wf one_tet 0 [0; 2; 4; 6] [0; 1; 2; 3].
 Proof. exact one_tet_wf. Qed.
